@@ -6,6 +6,7 @@
 import AuthProofs.StateInventory
 import AuthProofs.StoreSeq
 import AuthProofs.RedisCmd
+import AuthProofs.CodeEquivStore
 namespace AuthProps.C12
 open AuthModel
 
@@ -174,6 +175,32 @@ example : (run 5 [] (setTokP 10 4 5 { idToken := B "i", accessToken := B "a" }) 
     = ["hset", "hset", "hdel", "hsetnx", "hget", "expireat"] := by decide
 end Faults
 
+/-! ### about the code as translated from the source (Generated/CodeStore.lean) -/
+
+/-- THE CODE's `newSession(t)` is the empty session created and last accessed at `t` (what the memory model's `set`
+    starts a new session from) -/
+theorem code_new_session (env : Go.Env) (t : Go.Time) :
+    ∃ s, Code.newSession env t = .ok s ∧ s.isNil = false ∧ s.added = t ∧ s.accessed = t ∧
+      (CodeEquiv.sessOf s).tokens = none ∧ (CodeEquiv.sessOf s).auth = none :=
+  CodeEquiv.code_newSession env t
+
+/-- THE CODE's conversions of what the Redis store scans out of a hash are the model's `tokensOf` / `authOf`: every
+    stored member lands in its own field, for every hash -/
+theorem code_redis_records (env : Go.Env) (h : RHash) :
+    (∃ t, Code.TokenResponse env (CodeEquiv.scanTok h) = .ok t ∧ CodeEquiv.tokensOf t = some (Redis.tokensOf h)) ∧
+    (∃ a, Code.AuthorizationState env (CodeEquiv.scanAuth h) = .ok a ∧ CodeEquiv.authOf a = some (Redis.authOf h)) :=
+  ⟨CodeEquiv.code_redis_token env h, CodeEquiv.code_redis_auth env h⟩
+
+/-- THE CODE's `live` agrees with the memory model on every well-formed store (see C10 for the timeout readings) -/
+theorem code_live_is_model (env : Go.Env) (m : Pb.MemoryStore) (id : Str) (now : Int)
+    (hwf : CodeEquiv.StoreWF m) (hnow : env.now.unixNano = some now) :
+    ∃ s m', Code.live env m id = .ok (s, m') ∧
+      CodeEquiv.sessOpt s = ((CodeEquiv.storeOf m).live now id).2 ∧
+      (∀ k, (CodeEquiv.storeOf m').sessions k = ((CodeEquiv.storeOf m).live now id).1.sessions k) ∧
+      CodeEquiv.StoreWF m' := by
+  obtain ⟨s, m', h1, h2, _, _, h5, h6⟩ := CodeEquiv.code_live env m id now hwf hnow
+  exact ⟨s, m', h1, h2, h5, h6⟩
+
 /-- NO HIDDEN STATE: the stores keep nothing but what the model says they keep: regenerated inventory of every package-level variable and struct field of internal/oidc; the Redis store has no mutable field (all its state is server-side), the memory store has its mutex, its map and the four fields of an entry. -/
 theorem no_hidden_state : StoreInventory := store_inventory
 
@@ -202,3 +229,6 @@ end AuthProps.C12
 #print axioms AuthProps.C12.redis_read_success_is_faultfree
 #print axioms AuthProps.C12.redis_fault_is_error
 #print axioms AuthProps.C12.no_hidden_state
+#print axioms AuthProps.C12.code_new_session
+#print axioms AuthProps.C12.code_redis_records
+#print axioms AuthProps.C12.code_live_is_model
